@@ -19,11 +19,11 @@ REACH = ["_compute", "i_map", "od_reduce", "_sum_q", "_a", "_ladder_pairs", "v",
 
 
 def floors(tier):
-    return {"conservation": 15000 if tier == "quick" else 400000}
+    return {"conservation": 15000 if tier == "quick" else 4000000}
 
 
 def generate(ctx):
-    n = ctx.budget(30000, 600000)
+    n = ctx.budget(30000, 6000000)
     for _ in range(n):
         case, meta = gen.gen_case(ctx.rng)
         yield "game", dict(case=case, meta=meta)
